@@ -209,21 +209,33 @@ def write_if_changed(path, txt):
 
 
 # ------------------------------------------------------------------- proof build
-def coq_project():
-    """(Re)write _CoqProject and Makefile when the file set changed."""
+def coq_project(pid=None):
+    """(Re)write the _CoqProject / Makefile used for `pid` when its file set changed. Each property gets its own
+    project file listing only the directories its development can depend on (Base, its own, the Cyy it imports) and
+    their generated files, so that a broken or half-written file of ANOTHER property cannot disturb this build.
+    The .vo files are shared. Returns the Makefile name."""
+    dirs = cone_dirs(pid) if pid else None
     files = []
-    for sub, lib in (("theories", None), ("gen", None)):
+    for sub in ("theories", "gen"):
         for root, _, fs in os.walk(os.path.join(COQ, sub)):
             for f in sorted(fs):
-                if f.endswith(".v"):
-                    files.append(os.path.relpath(os.path.join(root, f), COQ))
+                if not f.endswith(".v"):
+                    continue
+                if dirs is not None:
+                    owner = os.path.basename(root) if sub == "theories" else f.split("_")[0]
+                    if owner not in dirs:
+                        continue
+                files.append(os.path.relpath(os.path.join(root, f), COQ))
     files.sort()
+    suffix = "" if pid is None else "." + pid
+    proj, mk = "_CoqProject" + suffix, "Makefile" + suffix
     txt = "-Q theories God\n-Q gen GodGen\n-arg -w -arg -notation-overridden,-deprecated-hint-without-locality,-deprecated-instance-without-locality\n" + "\n".join(files) + "\n"
-    changed = write_if_changed(os.path.join(COQ, "_CoqProject"), txt)
-    if changed or not os.path.exists(os.path.join(COQ, "Makefile")):
-        rc, out = sh(["coq_makefile", "-f", "_CoqProject", "-o", "Makefile"], cwd=COQ, timeout=120)
+    changed = write_if_changed(os.path.join(COQ, proj), txt)
+    if changed or not os.path.exists(os.path.join(COQ, mk)):
+        rc, out = sh(["coq_makefile", "-f", proj, "-o", mk], cwd=COQ, timeout=120)
         if rc != 0:
             raise RuntimeError("coq_makefile failed:\n" + out)
+    return mk
 
 
 class Lock:
@@ -245,13 +257,13 @@ def build_proofs(pid, targets, force=(), jobs=16, timeout=1500):
     """make the .vo targets (paths relative to coq/), forcing recompilation of `force`.
     Returns dict(ok, log, failed_file, assumptions{thm: text})."""
     with Lock("coqmake"):
-        coq_project()
+        mk = coq_project(pid)
         for f in force:
             for ext in (".vo", ".vos", ".vok", ".glob"):
                 p = os.path.join(COQ, f[:-3] + ext) if f.endswith(".vo") else os.path.join(COQ, f + ext)
                 if os.path.exists(p):
                     os.remove(p)
-        rc, out = sh(["make", "-j%d" % jobs] + list(targets), cwd=COQ, timeout=timeout)
+        rc, out = sh(["make", "-f", mk, "-j%d" % jobs] + list(targets), cwd=COQ, timeout=timeout)
     failed = None
     if rc != 0:
         m = re.search(r'File "\./([^"]+\.v)", line (\d+)', out)
